@@ -37,8 +37,7 @@ func join(a, b vclock) vclock {
 type accessRec struct {
 	tid   int
 	clock int32
-	site  string
-	fn    string
+	pc    uintptr // call site, resolved only when a race is reported
 }
 
 type locState struct {
@@ -113,12 +112,20 @@ func (r *raceState) handoff(sender, receiver *Thread) {
 	r.tick(receiver)
 }
 
-func callerFn(skip int) (string, string) {
-	pc, file, line, ok := runtime.Caller(skip)
-	if !ok {
+func callerPC(skip int) uintptr {
+	var pcs [1]uintptr
+	if runtime.Callers(skip+1, pcs[:]) == 0 {
+		return 0
+	}
+	return pcs[0]
+}
+
+func resolvePC(pc uintptr) (string, string) {
+	if pc == 0 {
 		return "?", "?"
 	}
-	fn := runtime.FuncForPC(pc).Name()
+	fr, _ := runtime.CallersFrames([]uintptr{pc}).Next()
+	fn, file, line := fr.Function, fr.File, fr.Line
 	if i := strings.LastIndex(fn, "/"); i >= 0 {
 		fn = fn[i+1:]
 	}
@@ -149,16 +156,16 @@ func (s *Sched) accessAt(ptr unsafe.Pointer, loc string, write bool, skip int) {
 	if r == nil || t == nil || s.aborting {
 		return
 	}
-	fn, site := callerFn(skip)
+	pc := callerPC(skip)
 	ls := r.locs[addr]
 	if ls == nil {
 		ls = &locState{keep: ptr}
 		r.locs[addr] = ls
 	}
-	me := accessRec{tid: t.id, clock: t.vc.get(t.id), site: site, fn: fn}
+	me := accessRec{tid: t.id, clock: t.vc.get(t.id), pc: pc}
 	report := func(o accessRec, kind string) {
-		a, b := o.fn, fn
-		sa, sb := o.site, site
+		a, sa := resolvePC(o.pc)
+		b, sb := resolvePC(pc)
 		if b < a {
 			a, b = b, a
 			sa, sb = sb, sa
